@@ -95,4 +95,42 @@ PROPS = {
                    'so any other exception from the real code is a disagreement by construction; each case also runs with downgraded (plain) inputs.',
         level_note=NOTE + CTOR + '; the warnings machinery.',
     ),
+    'C04': dict(
+        title='declared forwarding', proj='proj_full', oracle='c04',
+        quick=[S_('bind'), S_('forwards_exh', nc=32), S_('forwards_rand', count=30000)],
+        thorough=[S_('bind'), S_('forwards_exh', nc=32), S_('forwards_rand', count=400000)],
+        runtime_part='the forger protocol (set_signature_forger, forwards_to_method attribute walking, forwards_to_super, emulate) and execution of real wrappers',
+        level_text='forwards = embed . mask is definitional in the Lean model and its soundness follows from the embed and mask theorems; the '
+                   'correspondence compares real forwards with the model AND with real embed(outer, mask(inner)) in parameters and provenance; '
+                   'real decorated wrappers (functions, methods, super) are executed on all call shapes (partial: runtime glue validated, not proved).',
+        level_note=NOTE + 'decorator / forger plumbing, attribute lookup, execution of generated wrappers; ' + BINDER + '.',
+    ),
+    'C12': dict(
+        title='modifiers', proj='proj_full', oracle='c12',
+        quick=[S_('bindcall'), S_('pok'), S_('pokm'), S_('poknames')],
+        thorough=[S_('bindcall'), S_('pok', nc=64), S_('pokm'), S_('poknames')],
+        runtime_part='descriptor binding of the translator object, functools.update_wrapper',
+        level_text='prepare (advertised signature, admissibility) and the call translation are modelled branch by branch; exactness of the translated call '
+                   'w.r.t. a native function of the advertised signature is a theorem over a value-level model of CPython binding. Correspondence: every '
+                   'function of the universe x every selection (inadmissible ones included) x every value-level call, functions and bound methods.',
+        level_note=NOTE + 'the value-level binder model (validated against real calls by stream `bindcall`), descriptor protocol.',
+    ),
+    'C19': dict(
+        title='functools.partial', proj='proj_full', oracle='c19',
+        quick=[S_('bind'), S_('partial'), S_('maskp')],
+        thorough=[S_('bind'), S_('partial'), S_('maskp')],
+        runtime_part='functools.partial.__call__ (the oracle really calls the partial objects)',
+        level_text='signature(partial) is _mask in partial mode: exactness w.r.t. "f accepts the bound plus the call arguments" is a theorem about the Lean '
+                   'model; correspondence on real functools.partial objects of real functions (parameters, provenance, depths), plain and automatic retrieval.',
+        level_note=NOTE + 'functools.partial runtime; ' + BINDER + '.',
+    ),
+    'C20': dict(
+        title='support helpers', proj='proj_full', oracle='c20',
+        quick=[S_('bindcall'), S_('callsig'), S_('makeup')],
+        thorough=[S_('bindcall'), S_('callsig'), S_('makeup')],
+        runtime_part='regex splitting, str(Signature), compile/exec in s/f/func_from_sig (validated by round trips for all 8 read_sig option combinations, eager and postponed)',
+        level_text='bind_callsig = CPython binding (outside the version-dependent case), sort_callsigs partition and make_up_callsigs completeness are theorems '
+                   'about the Lean model; the string layer (read_sig / func_code / s / f / func_from_sig) is validated by round trips only (partial).',
+        level_note=NOTE + 'the string/regex/exec layer of support; the value-level binder model.',
+    ),
 }
